@@ -31,9 +31,9 @@ hx.stub_loggers()
 hx.patch_clock(hd)
 hx.patch_clock(fc)
 hx.FixedDate.TODAY = cm.TODAY
-hx.set(hd, "json", hx.JsonShim)
-hx.set(zm, "json", hx.JsonShim)
-hx.set(hd, "_hash_file", lambda p, chunk_size=8192: p.read_text())
+hx.put(hd, "json", hx.JsonShim)
+hx.put(zm, "json", hx.JsonShim)
+hx.put(hd, "_hash_file", lambda p, chunk_size=8192: p.read_text())
 KNOWN = set(x for x in os.environ.get("XH_KNOWN", "").split(",") if x)
 PIN = int(os.environ.get("XH_STRUCT", "-1"))
 PIN_IDS = int(os.environ.get("XH_IDS", "-1"))
